@@ -34,13 +34,53 @@ def spec():
     return _SPEC
 
 
+# custom types registered in this worker ("on request"): plain ones and 2.1 ones declared with
+# extension_name= (the builders add the extension entry after construction)
+CUSTOM = {}
+EXT_OBJ = "extension-definition--a932fcc6-e032-476c-826f-cb970a5a1ade"
+EXT_OBS = "extension-definition--b1c2d3e4-0a1b-4c2d-8e3f-1a2b3c4d5e6f"
+
+
+def _register():
+    P = stix2.properties
+
+    def mk(name):
+        return type(name, (object,), {})
+    CUSTOM["custom/2.0/x-c01-object"] = stix2.v20.CustomObject(
+        "x-c01-object", [("x_foo", P.StringProperty()), ("x_num", P.IntegerProperty())])(mk("C01Obj20"))
+    CUSTOM["custom/2.1/x-c01-object"] = stix2.v21.CustomObject(
+        "x-c01-object", [("x_foo", P.StringProperty()), ("x_num", P.IntegerProperty())])(mk("C01Obj21"))
+    CUSTOM["custom/2.1/x-c01-new-thing"] = stix2.v21.CustomObject(
+        "x-c01-new-thing", [("x_foo", P.StringProperty()), ("bar_value", P.IntegerProperty()), ("zeta", P.ListProperty(P.StringProperty))],
+        extension_name=EXT_OBJ)(mk("C01NewThing"))
+    CUSTOM["custom/2.0/x-c01-observable"] = stix2.v20.CustomObservable(
+        "x-c01-observable", [("value", P.StringProperty(required=True)), ("x_more", P.IntegerProperty())])(mk("C01Obs20"))
+    CUSTOM["custom/2.1/x-c01-observable"] = stix2.v21.CustomObservable(
+        "x-c01-observable", [("value", P.StringProperty(required=True)), ("x_more", P.IntegerProperty())], ["value"])(mk("C01Obs21"))
+    CUSTOM["custom/2.1/x-c01-new-observable"] = stix2.v21.CustomObservable(
+        "x-c01-new-observable", [("value", P.StringProperty(required=True)), ("x_more", P.IntegerProperty()), ("a_first", P.StringProperty())],
+        ["value"], extension_name=EXT_OBS)(mk("C01NewObs"))
+
+
+try:
+    _register()
+    REGISTRATION_ERROR = None
+except Exception as _e:  # noqa: BLE001
+    REGISTRATION_ERROR = type(_e).__name__ + ": " + str(_e)[:300]
+
+
 def cid_of(obj):
+    for k, c in CUSTOM.items():
+        if type(obj) is c:
+            return k
     mod = type(obj).__module__.split(".")
     ver = {"v20": "2.0", "v21": "2.1"}.get(mod[1] if len(mod) > 1 else "", "?")
     return ver + "/" + type(obj).__name__
 
 
 def find_class(cid):
+    if cid in CUSTOM:
+        return CUSTOM[cid]
     ver, name = cid.split("/")
     mod = stix2.v20 if ver == "2.0" else stix2.v21
     for sub in ("common", "sdo", "sro", "observables", "bundle"):
@@ -74,6 +114,8 @@ def derive(obj, how, allow):
         kwargs = dict(obj)
         return type(obj)(allow_custom=allow or obj.has_custom, **kwargs)
     if how == "other-version":
+        if cid_of(obj).startswith("custom/"):
+            raise LookupError("custom type")
         ver = "2.0" if cid_of(obj).startswith("2.1") else "2.1"
         t = obj["type"]
         cls = stix2.registry.class_for_type(t, ver, "objects") or stix2.registry.class_for_type(t, ver, "observables")
@@ -98,6 +140,9 @@ def pairs_top(text):
 
 def observe(case):
     out = {"created": False}
+    if REGISTRATION_ERROR and case["cid"].startswith("custom/"):
+        out["err"] = "registration:" + REGISTRATION_ERROR
+        return out
     try:
         obj = make(case)
     except RecursionError:
@@ -165,10 +210,13 @@ def observe(case):
 # ------------------------------------------------------------------ verdicts
 
 def const_defaults_for_type(t):
-    """{property: default} over every frozen-spec class whose _type is t (optional properties with a constant default)"""
+    """{property: default} over every frozen-spec class whose _type is t (optional properties with a constant
+    default); for a type the frozen specification does not know (a registered custom type): the constant
+    defaults of the common properties, i.e. of all specified classes"""
     out = {}
+    known = any(c.get("type") == t for c in spec()["classes"].values())
     for c in spec()["classes"].values():
-        if c.get("type") == t:
+        if c.get("type") == t or not known:
             for s in c["slots"]:
                 d = s.get("default") or {}
                 if d.get("d") == "const" and not s["required"]:
